@@ -456,10 +456,24 @@ def build():
             for a, b in pairs:
                 ctx.check(f"field[{a}] carried over", _same(ctx, getattr(out, a), getattr(r, b)))
             if kind != "error":
-                ctx.check("field[bell_state] carried over (same member)", _same(ctx, out.bell_state, r.bell_state))
+                # the two interfaces NUMBER the Bell states differently: the converted value must be netqasm's member of the same NAME
+                ctx.check("field[bell_state] denotes the same Bell state in netqasm's own enumeration", _same_name(ctx, out.bell_state, r.bell_state, QC.BellState))
             if kind == "measure":
-                ctx.check("field[measurement_basis] carried over (same member)", _same(ctx, out.measurement_basis, r.measurement_basis))
+                ctx.check("field[measurement_basis] denotes the same basis in netqasm's own enumeration", _same_name(ctx, out.measurement_basis, r.measurement_basis, QC.Basis))
         return f
+
+    def _same_name(ctx, got, src, enum_cls):
+        from pyvc.values import SEnum
+        if isinstance(got, SEnum):
+            if got.cls is not enum_cls:
+                return False
+        elif not isinstance(got, enum_cls):
+            return False
+        ok = True
+        for m in type(src).__members__.values() if not isinstance(src, SEnum) else src.cls.__members__.values():
+            if ctx.truth(ctx.eq(src, m)):
+                ok = ctx.truth(ctx.eq(got, enum_cls[m.name]))
+        return ok
 
     def _same(ctx, a, b):
         import enum as _enum
